@@ -1260,9 +1260,8 @@ namespace chaiscript {
           : AST_Node_Impl<T>(std::move(t_ast_node_text), AST_Node_Type::Try, std::move(t_loc), std::move(t_children)) {
       }
 
-      Boxed_Value handle_exception(const chaiscript::detail::Dispatch_State &t_ss, const Boxed_Value &t_except) const {
-        Boxed_Value retval;
-
+      /// \returns true if one of the catch clauses accepted the exception; t_retval is then the value of its block
+      bool handle_exception(const chaiscript::detail::Dispatch_State &t_ss, const Boxed_Value &t_except, Boxed_Value &t_retval) const {
         size_t end_point = this->children.size();
         if (this->children.back()->identifier == AST_Node_Type::Finally) {
           assert(end_point > 0);
@@ -1274,32 +1273,36 @@ namespace chaiscript {
 
           if (catch_block.children.size() == 1) {
             // No variable capture
-            retval = catch_block.children[0]->eval(t_ss);
-            break;
-          } else if (catch_block.children.size() == 2 || catch_block.children.size() == 3) {
+            t_retval = catch_block.children[0]->eval(t_ss);
+            return true;
+          } else if (catch_block.children.size() == 2) {
             const auto name = Arg_List_AST_Node<T>::get_arg_name(*catch_block.children[0]);
+            const dispatch::Param_Types param_types(
+                std::vector<std::pair<std::string, Type_Info>>{Arg_List_AST_Node<T>::get_arg_type(*catch_block.children[0], t_ss)});
+            const auto match = param_types.match(Function_Params{t_except}, t_ss.conversions());
 
-            if (dispatch::Param_Types(
-                    std::vector<std::pair<std::string, Type_Info>>{Arg_List_AST_Node<T>::get_arg_type(*catch_block.children[0], t_ss)})
-                    .match(Function_Params{t_except}, t_ss.conversions())
-                    .first) {
-              t_ss.add_object(name, t_except);
-
-              if (catch_block.children.size() == 2) {
-                // Variable capture
-                retval = catch_block.children[1]->eval(t_ss);
-                break;
+            if (match.first) {
+              if (match.second) {
+                // a conversion between the two types is registered, but it only applies if this
+                // particular object really is of the clause's type (e.g. a derived exception class)
+                try {
+                  param_types.convert(Function_Params{t_except}, t_ss.conversions());
+                } catch (...) {
+                  continue;
+                }
               }
+
+              // Variable capture
+              t_ss.add_object(name, t_except);
+              t_retval = catch_block.children[1]->eval(t_ss);
+              return true;
             }
           } else {
-            if (this->children.back()->identifier == AST_Node_Type::Finally) {
-              this->children.back()->children[0]->eval(t_ss);
-            }
             throw exception::eval_error("Internal error: catch block size unrecognized");
           }
         }
 
-        return retval;
+        return false;
       }
 
       Boxed_Value eval_internal(const chaiscript::detail::Dispatch_State &t_ss) const override {
@@ -1307,26 +1310,42 @@ namespace chaiscript {
 
         chaiscript::eval::detail::Scope_Push_Pop spp(t_ss);
 
+        const bool has_finally = this->children.back()->identifier == AST_Node_Type::Finally;
+
         try {
-          retval = this->children[0]->eval(t_ss);
-        } catch (const exception::eval_error &e) {
-          retval = handle_exception(t_ss, Boxed_Value(std::ref(e)));
-        } catch (const std::runtime_error &e) {
-          retval = handle_exception(t_ss, Boxed_Value(std::ref(e)));
-        } catch (const std::out_of_range &e) {
-          retval = handle_exception(t_ss, Boxed_Value(std::ref(e)));
-        } catch (const std::exception &e) {
-          retval = handle_exception(t_ss, Boxed_Value(std::ref(e)));
-        } catch (Boxed_Value &e) {
-          retval = handle_exception(t_ss, e);
+          try {
+            retval = this->children[0]->eval(t_ss);
+          } catch (const exception::eval_error &e) {
+            if (!handle_exception(t_ss, Boxed_Value(std::ref(e)), retval)) {
+              throw;
+            }
+          } catch (const std::runtime_error &e) {
+            if (!handle_exception(t_ss, Boxed_Value(std::ref(e)), retval)) {
+              throw;
+            }
+          } catch (const std::out_of_range &e) {
+            if (!handle_exception(t_ss, Boxed_Value(std::ref(e)), retval)) {
+              throw;
+            }
+          } catch (const std::exception &e) {
+            if (!handle_exception(t_ss, Boxed_Value(std::ref(e)), retval)) {
+              throw;
+            }
+          } catch (Boxed_Value &e) {
+            if (!handle_exception(t_ss, e, retval)) {
+              throw;
+            }
+          }
         } catch (...) {
-          if (this->children.back()->identifier == AST_Node_Type::Finally) {
+          // no clause accepted the exception, a catch block itself threw, or a non-exception
+          // control flow (return/break/continue) is leaving the try: finally still runs
+          if (has_finally) {
             this->children.back()->children[0]->eval(t_ss);
           }
           throw;
         }
 
-        if (this->children.back()->identifier == AST_Node_Type::Finally) {
+        if (has_finally) {
           retval = this->children.back()->children[0]->eval(t_ss);
         }
 
